@@ -20,7 +20,10 @@ META = {
     "text": "Every schedule with <=2 (quick) / <=3 (thorough) preemptions of 2-3 threads doing feed/recv/eof/"
             "unlink/fileno on a real Channel with a real os.pipe; every line of pipe.py, buffered_pipe.py "
             "and the channel's pipe-maintaining functions is a scheduling point; at the end the descriptor "
-            "must be readable iff data/EOF/closed.",
+            "must be readable iff data/EOF/closed. Plus [sequential histories] every operation history up to depth "
+            "4/6 over {fileno, feed stdout/stderr/empty, recv 1/all, recv_stderr, EOF, set_combine_stderr, unlink} "
+            "from every initial state (0-2 stdout bytes x 0-1 stderr bytes x EOF received or not, no descriptor "
+            "yet), the iff evaluated after every operation once fileno() has been called.",
     "note": "atomicity = source line in the traced files; CPython; POSIX pipe",
     "design_ref": "4/C24",
 }
@@ -95,6 +98,8 @@ def do_op(chan, op):
             return ("fd", chan.fileno())
         elif op == "close":
             chan.close()
+        elif op == "combine":
+            chan.set_combine_stderr(True)
     except socket.timeout:
         return "timeout"
 
@@ -271,6 +276,87 @@ def run_scn(item, acc):
                     "schedules": res.executions, "end_states": sorted(map(list, seen), key=repr)})
 
 
+# ---------------------------------------------------------------- sequential histories (one thread)
+# "starting from any buffer state": every operation history up to a depth from every initial buffer/EOF state,
+# fileno() being one of the operations (so EOF/data before the first fileno(), combining after buffered
+# stderr data etc. are all reached); the iff is evaluated after every operation once a descriptor exists.
+SEQ_OPS = ["fileno", "feed_out", "feed_err", "feed_empty", "recv1", "recv_all", "recv_err_all", "eof", "combine",
+           "unlink"]
+
+
+def seq_check(chan):
+    if chan._pipe is None:
+        return None
+    fd = chan._pipe.fileno()
+    r, _, _ = select.select([fd], [], [], 0)
+    expect = (len(chan.in_buffer) > 0 or len(chan.in_stderr_buffer) > 0 or chan.eof_received or chan.closed)
+    return bool(r), bool(expect)
+
+
+def seq_run(init, hist):
+    """Returns (index of the first op after which the iff fails or None, readable, expect, trail)."""
+    io, ie, eof0 = init
+    chan = paramiko.Channel(1)
+    chan.transport = _StubTransport()
+    chan.settimeout(0.0)
+    try:
+        if io:
+            chan.in_buffer.feed(b"o" * io)
+        if ie:
+            chan.in_stderr_buffer.feed(b"e" * ie)
+        if eof0:
+            chan._handle_eof(None)
+        state = None
+        for i, op in enumerate(hist):
+            try:
+                do_op(chan, op)
+            except WouldBlockForever:
+                return i, "blocks", True, None
+            v = seq_check(chan)
+            if v is not None and v[0] != v[1]:
+                return i, v[0], v[1], None
+        if chan._pipe is None:
+            chan.fileno()
+            v = seq_check(chan)
+            if v[0] != v[1]:
+                return len(hist), v[0], v[1], None
+        state = (len(chan.in_buffer), len(chan.in_stderr_buffer), chan.eof_received, chan.closed,
+                 chan.combine_stderr, chan._pipe is not None)
+        return None, None, None, state
+    finally:
+        p = chan._pipe
+        if p is not None:
+            try:
+                p.close()
+            except OSError:
+                pass
+            chan._pipe = None
+
+
+def run_seq(item, acc):
+    tier, init, first, depth = item
+    states = set()
+    for k in range(0, depth):
+        for rest in itertools.product(SEQ_OPS, repeat=k):
+            hist = (first,) + rest
+            acc.ev()
+            bad, readable, expect, state = seq_run(init, hist)
+            if bad is None:
+                if state not in states:
+                    states.add(state)
+                    acc.nt(("seq", init, state))
+                continue
+            upto = hist[:bad + 1] if bad < len(hist) else hist + ("fileno",)
+            kind = "not-readable-although-data-or-eof" if expect else "readable-although-empty"
+            if readable == "blocks":
+                kind = "reader-or-feeder-hangs-in-pipe-clear"
+            # key: the operations of the shortest failing prefix (as a set), sequential
+            acc.violation("%s:sequential:%s" % (kind, "+".join(sorted(set(upto)))),
+                          {"init(out,err,eof)": list(init), "history": list(upto), "readable": readable,
+                           "expect": expect}, {"seq": {"init": list(init), "history": list(upto)}})
+    acc.count("sequential_histories_end_states", len(states))
+
+
 def main(tier):
     ck = core.Check(PID, tier, "exploration",
                     "scenario = initial buffer state x per-thread op lists; every schedule with <= k "
@@ -280,6 +366,10 @@ def main(tier):
                     ["atomicity granularity = source line in traced files", "POSIX pipe via os.pipe"])
     items = [(tier, s) for s in scenarios(tier)]
     ck.merge(core.pmap(items, run_scn))
+    sdepth = 4 if tier == "quick" else 6
+    inits = [(io, ie, e) for io in (0, 1, 2) for ie in (0, 1) for e in (False, True)]
+    ck.extra["sequential_history_depth"] = sdepth
+    ck.merge(core.pmap([(tier, init, op, sdepth) for init in inits for op in SEQ_OPS], run_seq))
     if any("cap of" in n for n in ck.acc.notes):
         ck.cap_hit("execution cap per scenario")
     return ck.finish()
@@ -287,6 +377,10 @@ def main(tier):
 
 def replay(rec):
     r = rec["replay"]
+    if "seq" in r:
+        bad, readable, expect, state = seq_run(tuple(r["seq"]["init"]), tuple(r["seq"]["history"]))
+        print("first failing op index", bad, "readable", readable, "expect", expect, "end state", state)
+        return 1 if bad is not None else 0
     scn = r["scn"]
     scn = (scn[0], scn[1], scn[2], scn[3], tuple(tuple(p) for p in scn[4]))
     ex = explore.replay(make_body(scn), r["choices"], "preempt",
